@@ -4,7 +4,7 @@ CONSTANTS
   CTypes = {"default", "application/json; charset=utf-8", "image/png"}
   AEs = {"absent", "gzip", "deflate, gzip", "identity"}
   Pres = {"none"}
-  Lens = {0, 1, 1023, 1024}
+  Lens = {0, 1, 1024}
   Fill = 97
   MaxOps = 3
   L = 4
